@@ -250,6 +250,7 @@ pub fn gen_program(r: &mut ChaChaRng, m: i64, kind: &str, id: String) -> Program
         cbs,
         cap: cap_p,
         pc: PcSpec::default(),
+        gh: vec![],
     };
     let v = if cap_v != cap_p {
         let mut s = side.clone();
@@ -258,10 +259,75 @@ pub fn gen_program(r: &mut ChaChaRng, m: i64, kind: &str, id: String) -> Program
     } else {
         None
     };
-    Program { id, p: side, v, seed: r.gen(), tamper, expect_p: String::new(), expect_v, wide: false, rets: None, vskip: false }
+    Program { id, p: side, v, seed: r.gen(), tamper, expect_p: String::new(), expect_v, wide: false, rets: None, vskip: false, bytes: false, btamper: vec![] }
+}
+
+/// a random life of a generator table: new, then increases / round trips / clones / views; `need` = the padded gate count the side needs
+fn gen_history(r: &mut ChaChaRng, need: usize) -> Vec<GOp> {
+    let parties = r.gen_range(1..=3usize);
+    let mut cap = r.gen_range(0..=need + 2);
+    let mut h = vec![GOp::New { cap, parties }];
+    for _ in 0..r.gen_range(0..4) {
+        match r.gen_range(0..6) {
+            0 | 1 => {
+                let c = r.gen_range(0..=2 * need + 1);
+                if c > cap {
+                    cap = c;
+                }
+                h.push(GOp::Inc { cap: c });
+            }
+            2 => h.push(GOp::Ser),
+            3 => h.push(GOp::Clone),
+            _ => h.push(GOp::View { kind: if r.gen_bool(0.5) { "G".into() } else { "H".into() }, n: r.gen_range(0..=cap), m: r.gen_range(0..=parties) }),
+        }
+    }
+    if cap < need && r.gen_bool(0.85) {
+        h.push(GOp::Inc { cap: need + r.gen_range(0..2) });
+    }
+    if r.gen_bool(0.3) {
+        h.push(if r.gen_bool(0.5) { GOp::Ser } else { GOp::Clone });
+    }
+    h
+}
+
+/// a whole session: generator tables with a history on both sides, the proof as bytes, tampering on objects or bytes
+pub fn gen_session(r: &mut ChaChaRng, m: i64, id: String) -> Program {
+    let base = ["honest", "honest", "honest", "tamper", "badwit", "surplus"][r.gen_range(0..6)];
+    let mut p = gen_program(r, m, base, id);
+    let need = pad2(p.p.cap.min(p.vside().cap).max(1)).max(1); // the generator chose caps >= the padded size
+    let need = {
+        // recover the padded size: the smallest of the two chosen capacities is need, need + 1, need + 3 or 2 * need
+        let c = p.p.cap.min(p.vside().cap);
+        let mut n = 1;
+        while n * 2 <= c { n *= 2; }
+        let _ = need;
+        n
+    };
+    p.p.gh = gen_history(r, need);
+    let mut v = p.vside().clone();
+    v.gh = gen_history(r, need);
+    p.v = Some(v);
+    p.bytes = true;
+    p.expect_v = String::new();
+    if base == "honest" && r.gen_bool(0.5) {
+        let e = match r.gen_range(0..6) {
+            0 => BEdit::Truncate { len: r.gen_range(0..600) },
+            1 => BEdit::Bitflip { bit: r.gen_range(0..4000) },
+            2 => BEdit::Ffs { tok: r.gen_range(0..24) },
+            3 => BEdit::Count { which: r.gen_range(0..2), val: [0u64, 1, 2, 3, 5, 1 << 20, u64::MAX][r.gen_range(0..7)] },
+            4 => BEdit::Trail { n: r.gen_range(1..40) },
+            _ => BEdit::Truncate { len: r.gen_range(0..40) },
+        };
+        p.btamper.push(e);
+    }
+    p
 }
 
 pub fn gen_programs(seed: u64, n: usize, m: i64, kind: &str) -> Vec<Program> {
+    if kind == "session" {
+        let mut r = ChaChaRng::seed_from_u64(seed);
+        return (0..n).map(|i| gen_session(&mut r, m, format!("s{}-{}", seed, i))).collect();
+    }
     let mut r = ChaChaRng::seed_from_u64(seed);
     (0..n)
         .map(|i| {
